@@ -37,7 +37,7 @@ INJ = {
 }
 
 
-def run_handshake(adv_c, adv_s, kex, inject=None, drop=None, timeout=6.0):
+def run_handshake(adv_c, adv_s, kex, inject=None, drop=None, timeout=6.0, cipher=None):
     """inject = (dst, pos, type): forged plaintext packet delivered to `dst` ("c"/"s") just before unit
     number `pos` (0 = banner, 1 = KEXINIT, ...) of the genuine stream towards it.
     drop = (dst, k): delete the k-th (0-based) packet after NEWKEYS in the stream towards dst.
@@ -73,6 +73,8 @@ def run_handshake(adv_c, adv_s, kex, inject=None, drop=None, timeout=6.0):
     sess = ns.Session(link=link, packetizer_class=HashTap, client_kw={"strict_kex": adv_c}, server_kw={"strict_kex": adv_s})
     for t in (sess.tc, sess.ts):
         t.get_security_options().kex = (kex,)
+        if cipher:
+            t.get_security_options().ciphers = (cipher,)
         t.handshake_timeout = timeout
         t.auth_timeout = 0.7
         t.banner_timeout = timeout
@@ -94,7 +96,7 @@ def run_handshake(adv_c, adv_s, kex, inject=None, drop=None, timeout=6.0):
         except Exception as e:
             app["err"] = type(e).__name__
     time.sleep(0.01)
-    obs = {"advC": adv_c, "advS": adv_s, "kex": kex,
+    obs = {"advC": adv_c, "advS": adv_s, "kex": kex + ("|" + cipher if cipher else ""),
            "inject": list(inject) if inject else [], "drop": list(drop) if drop else [],
            "injected": st["injected"], "dropped": st["dropped"], "app": app, "ends": {}}
     for name, t, peer in (("c", sess.tc, sess.ts), ("s", sess.ts, sess.tc)):
@@ -142,7 +144,7 @@ class MarkerOnceTransport(paramiko.Transport):
         return super()._send_kex_init()
 
 
-def run_rekeys(marker_once_side, initiators, kex="curve25519-sha256@libssh.org", timeout=6.0):
+def run_rekeys(marker_once_side, initiators, kex="curve25519-sha256@libssh.org", timeout=6.0, cipher=None):
     """strict kex agreed in the initial handshake; then one re-exchange per entry of `initiators` ("c"/"s").
     marker_once_side in {"c", "s", "none"}: which end stops repeating the marker. Returns per-end observations."""
     link = ns.Link()
@@ -153,6 +155,8 @@ def run_rekeys(marker_once_side, initiators, kex="curve25519-sha256@libssh.org",
         sess.ts.__class__ = MarkerOnceTransport
     for t in (sess.tc, sess.ts):
         t.get_security_options().kex = (kex,)
+        if cipher:
+            t.get_security_options().ciphers = (cipher,)
         t.auth_timeout = 2.0
     ok = sess.start(timeout=timeout)
     if ok != (True, True):
@@ -183,7 +187,7 @@ def run_rekeys(marker_once_side, initiators, kex="curve25519-sha256@libssh.org",
         if not (sess.tc.is_active() and sess.ts.is_active()):
             break
     time.sleep(0.01)
-    obs = {"marker_once": marker_once_side, "kex": kex, "rekeys": rekeys, "ends": {}}
+    obs = {"marker_once": marker_once_side, "kex": kex + ("|" + cipher if cipher else ""), "rekeys": rekeys, "ends": {}}
     for name, t in (("c", sess.tc), ("s", sess.ts)):
         p = t.packetizer
         ins, outs = list(p.in_ids), list(p.out_ids)
